@@ -20,8 +20,9 @@
    for (it <- x[p]) (simple statements)  with the cloning/draining iterator;  expressions  literal, x[p] (also
    slices), getter closure, [e..], e{k = e'}, call of a function that mutates its parameter (incl. `every`).
    Write paths of the non-`every` forms contain no slice (that is todo!() in set_index, finding F11).
-   So `ffrag` excludes only what the interpreter itself leaves as todo!(): every operator and statement form of the
-   statement language is covered.  Builtins outside `bop` are outside the model. *)
+   NOT covered by the theorems (`sfrag` is false for them; spec and machine define them and they are checked by the
+   correspondence and by C02's Rc-graph comparison only):  every x[p] f= e  (SEveryOp, modify_every: private copy, all or
+   nothing)  and  (x[p] and y[q] ..) f= e  (SAndOp, op-assign to an and-pattern).  Builtins outside `bop` are outside the model. *)
 From Coq Require Import ZArith List Bool.
 From NV Require Import Rc.ValueSem Rc.Heap Rc.Cow Rc.Heap_proofs Rc.Cow_proofs Rc.For_proofs Rc.Corollaries_proofs.
 Import ListNotations.
